@@ -124,6 +124,48 @@ fn frontend_case(r: &mut Rng, n_cases: usize, k: usize) -> Option<(E, String)> {
     Some((datum, pdata_gal_of(k, &fields)))
 }
 
+/// front-end leg with a spread: `V::C<k> { ...source }` (optionally with one explicit field) where the
+/// UTxO bound to `source` carries another case of the same shape; the template names case k, so
+/// the datum must be alternative k with the source's fields.
+fn frontend_spread_case(r: &mut Rng, n_cases: usize, k: usize, j: usize, explicit_first: bool) -> Option<(E, String)> {
+    let mut src = String::from("party Sender;\n\ntype V {\n");
+    for i in 0..n_cases {
+        src.push_str(&format!("    C{} {{\n        f0: Int,\n        f1: Bytes,\n    }},\n", i));
+    }
+    src.push_str("}\n\ntx t(q: Int) {\n    input source {\n        from: Sender,\n        datum_is: V,\n        min_amount: Ada(q),\n    }\n    output {\n        to: Sender,\n        amount: Ada(q),\n");
+    let new0 = 7 + r.below(1000) as i128;
+    if explicit_first {
+        src.push_str(&format!("        datum: V::C{} {{\n            f0: {},\n            ...source\n        }},\n", k, new0));
+    } else {
+        src.push_str(&format!("        datum: V::C{} {{\n            ...source\n        }},\n", k));
+    }
+    src.push_str("    }\n}\n");
+    let held0 = 100 + r.below(100_000) as i128;
+    let held1 = vec![0x61, 0x62, 0x63, r.below(256) as u8];
+    let res = std::panic::catch_unwind(std::panic::AssertUnwindSafe(|| {
+        let mut program = tx3_lang::parsing::parse_string(&src).ok()?;
+        let report = tx3_lang::analyzing::analyze(&mut program);
+        if !report.errors.is_empty() {
+            return None;
+        }
+        let tx = tx3_lang::lowering::lower(&program, "t").ok()?;
+        let utxo = tx3_tir::model::core::Utxo {
+            r#ref: UtxoRef { txid: vec![5; 32], index: 0 },
+            address: addr_bytes(0xA1),
+            assets: tx3_tir::model::assets::CanonicalAssets::from_naked_amount(5_000_000),
+            datum: Some(E::Struct(tir::StructExpr { constructor: j, fields: vec![E::Number(held0), E::Bytes(held1.clone())] })),
+            script: None,
+        };
+        let ins = BTreeMap::from([("source".to_string(), std::collections::HashSet::from([utxo]))]);
+        let tx = tx3_tir::reduce::apply_inputs(tx, &ins).ok()?;
+        tx3_tir::reduce::reduce(tx).ok()
+    }));
+    let tx = res.ok().flatten()?;
+    let datum = tx.outputs.first()?.datum.clone();
+    let f0 = if explicit_first { new0 } else { held0 };
+    Some((datum, pdata_gal_of(k, &[format!("(PInt {})", gal::z(f0)), format!("(PBytes {})", gal::bytes(&held1))])))
+}
+
 fn bytes_opt(b: &Option<Vec<u8>>) -> String {
     gal::opt(b.as_ref().map(|x| gal::bytes_lit(x)))
 }
@@ -177,6 +219,14 @@ pub fn run(ctx: &mut Ctx) {
         for k in ks {
             if let Some((e, den)) = frontend_case(&mut r, n, k) {
                 cases.push((e, Some(den), "frontend_variant"));
+            }
+        }
+    }
+    // front end: a constructor that spreads an input whose datum is another case of the type
+    for (n, k, j) in [(2usize, 1usize, 0usize), (2, 0, 1), (3, 2, 0), (9, 7, 6), (9, 6, 7), (130, 128, 3), (130, 3, 128), (4, 1, 1)] {
+        for explicit in [false, true] {
+            if let Some((e, den)) = frontend_spread_case(&mut r, n, k, j, explicit) {
+                cases.push((e, Some(den), "frontend_spread"));
             }
         }
     }
